@@ -68,7 +68,38 @@ def c12_undeleg(line):
     return None
 
 
+def c17_swapinfo(line):
+    args, res = line.split(' => ')
+    stb, bb, rst, rb, xb2st, xst2b = [int(x) for x in args.split(' ')]
+    if res == 'err':
+        return None
+    od, oa, ask = res.split(' ')
+    oa = int(oa)
+    conv = rb * xb2st // D
+    total = rst + conv
+    if stb + bb == 0:
+        return 'get_swap_info succeeded with nothing bonded'
+    share = total * stb // (stb + bb)
+    if od == 'usei':
+        if ask != 'uusd':
+            return 'selling usei but not asking uusd'
+        if oa > rst:
+            return 'offers %d usei but holds %d' % (oa, rst)
+        if rst - oa != share:
+            return 'stSei-side balance after selling is %d, share is %d' % (rst - oa, share)
+    else:
+        if ask != 'usei':
+            return 'selling uusd but not asking usei'
+        if xb2st * xst2b <= D * D and oa > rb:
+            return 'offers %d uusd but holds %d' % (oa, rb)
+        buy = share - rst
+        if oa != buy * xst2b // D:
+            return 'offered %d, expected floor(buy x price) = %d' % (oa, buy * xst2b // D)
+    return None
+
+
 KERNEL_MONITORS = {
+    ('C17', 'swapinfo'): c17_swapinfo,
     ('C12', 'deleg'): c12_deleg,
     ('C12', 'undeleg'): c12_undeleg,
 }
@@ -76,4 +107,60 @@ KERNEL_MONITORS = {
 # ---------------------------------------------------------------- history monitors
 # signature: mon(hstate, prev_state, op_text, ok, trace_lines, cur_state, known) -> None
 #            | ('violation', message) | ('known', finding_id, description)
-HISTORY_MONITORS = {}
+
+
+def _coins(s):
+    if s == '-':
+        return []
+    out = []
+    for c in s.split(','):
+        d, a = c.split(':')
+        out.append((d, int(a)))
+    return out
+
+
+def mon_c17(hs, prev, op, ok, trace, cur, known):
+    """dispatch conservation and fee bound on every executed DispatchRewards; keeper rate <= 1"""
+    cfg = cur.one('dp.cfg')
+    if cfg is not None:
+        rate = int(cfg[6])
+        if rate > D:
+            return ('violation', 'dispatcher keeper rate %d exceeds 1' % rate)
+    if not ok or prev is None:
+        return None
+    pcfg = prev.one('dp.cfg')
+    if pcfg is None:
+        return None
+    for i, ln in enumerate(trace):
+        t = ln.split(' ')
+        if t[1] == 'wasm' and t[3] == 'disp' and t[4] == 'dispatch_rewards':
+            # messages emitted by the dispatcher until the trace leaves its subtree: direct children are
+            # bank sends from disp and wasm disp->hub bond_rewards / disp->reward update_global_index
+            sent = {}
+            zero = False
+            for ln2 in trace[i + 1:]:
+                u = ln2.split(' ')
+                if u[1] == 'bank' and u[2] == 'disp':
+                    for d, a in _coins(u[4]):
+                        sent[d] = sent.get(d, 0) + a
+                        zero = zero or a == 0
+                elif u[1] == 'wasm' and u[2] == 'disp' and u[4] == 'bond_rewards':
+                    for d, a in _coins(u[5]):
+                        sent[d] = sent.get(d, 0) + a
+                        zero = zero or a == 0
+            if zero:
+                return ('violation', 'dispatcher emitted a zero-coin transfer that executed')
+            std, bd = pcfg[3], pcfg[4]
+            for d in (std, bd):
+                after = 0
+                for b in cur.all('bank'):
+                    if b[0] == 'disp' and b[1] == d:
+                        after = int(b[2])
+                if after != 0:
+                    return ('violation', 'dispatcher still holds %d %s after DispatchRewards' % (after, d))
+    return None
+
+
+HISTORY_MONITORS = {
+    'C17': [mon_c17],
+}
